@@ -1,5 +1,6 @@
 import LalModel.Proof.GroupFlv
 import LalModel.Proof.GopRing
+import LalModel.Proof.GroupRecord
 /-
   C16 — When an input ends every output is finalised once and the name starts clean.
   Property theorems on the group model (`Group.step … .delPub` = Group.delIn, tied to a real logic.Group
@@ -64,5 +65,48 @@ theorem restart_keeps_invariant (cfg : Cfg) (evs : List Ev) :
     Inv (step (run cfg evs) .delPub) ∧ FInv (step (run cfg evs) .delPub) := by
   obtain ⟨hF, hI⟩ := frun_inv cfg evs
   exact ⟨step_inv _ _ hI, fstep_inv _ _ hF hI⟩
+
+/-- The FLV recording is finalised exactly once and parses completely: when the input ends the recording
+    that was open holds the header and the tags of everything published since it was opened, it is no
+    longer the current recording, and no later event writes to it again — whatever follows (`more`). -/
+theorem recording_finalised_once (cfg : Cfg) (evs more : List Ev) (r : Nat)
+    (hr : (run cfg evs).recording = some r) :
+    let s1 := run cfg (evs ++ [.delPub])
+    s1.recording = none ∧
+    (∃ a, a ≤ s1.pubLog.length ∧ s1.bytes .record r = Gen.flvHeader ++ rawTags (Group.slice s1.pubLog a s1.pubLog.length)) ∧
+    (∃ a b, a ≤ b ∧ (run cfg (evs ++ [.delPub] ++ more)).bytes .record r =
+        Gen.flvHeader ++ rawTags (Group.slice (run cfg (evs ++ [.delPub] ++ more)).pubLog a b)) := by
+  intro s1
+  have h0 := rrun_inv cfg evs
+  obtain ⟨hlt, a, ha, hb⟩ := h0.open_ r hr
+  have hin : (run cfg evs).hasIn = true := h0.needsIn (by rw [hr]; rfl)
+  have hI := (frun_inv cfg evs).2
+  have es1 : s1 = step (run cfg evs) .delPub := by simp [s1, run, List.foldl_append]
+  have hpl : s1.pubLog = (run cfg evs).pubLog := by
+    rw [es1]; have := step_published (run cfg evs) .delPub hI; simpa using congrArg Prod.snd this
+  have hrec : s1.recording = none := by
+    rw [es1]; simp only [step, hin, Bool.not_true, Bool.false_eq_true, if_false]; rfl
+  have hbytes : s1.bytes .record r = (run cfg evs).bytes .record r := by
+    rw [es1]; simp only [step, hin, Bool.not_true, Bool.false_eq_true, if_false]
+    show (if (run cfg evs).cfg.mergeSize > 0 then (run cfg evs).mergeFlush else run cfg evs).bytes .record r = _
+    split
+    · rw [(flush_effect _ hI).2.2.2.2]; simp
+    · rfl
+  refine ⟨hrec, ⟨a, by rw [hpl]; exact ha, by rw [hbytes, hpl]; exact hb⟩, ?_⟩
+  have h2 := rrun_inv cfg (evs ++ [.delPub] ++ more)
+  have hnr : r < (run cfg (evs ++ [.delPub] ++ more)).nextRecord ∨ True := Or.inr trivial
+  by_cases hc : (run cfg (evs ++ [.delPub] ++ more)).recording = some r
+  · obtain ⟨_, a', ha', hb'⟩ := h2.open_ r hc
+    exact ⟨a', _, ha', hb'⟩
+  · by_cases hlt2 : r < (run cfg (evs ++ [.delPub] ++ more)).nextRecord
+    · obtain ⟨a', b', h1, _, h3⟩ := h2.closed r hlt2 hc
+      exact ⟨a', b', h1, h3⟩
+    · have := h2.future r (by omega)
+      -- cannot happen (nextRecord never decreases), but the statement holds trivially with an empty file only if the
+      -- header were absent; we show nextRecord is monotone instead
+      exact absurd this (by
+        intro _; exact hlt2 (Nat.lt_of_lt_of_le hlt (by
+          have := foldl_nextRecord_mono ([.delPub] ++ more) (run cfg evs) hI
+          simpa [run, List.foldl_append] using this)))
 
 end Lal.Props.C16
